@@ -521,8 +521,12 @@ def run_check(spec, tier, seed, replay=None):
     ev["assumptions"] = spec.get("assumptions", [])
     ev["wall_s"] = round(time.time() - t0, 1)
     ev["violations"] = len(res.violations)
-    (VERIF / "evidence").mkdir(exist_ok=True)
-    (VERIF / "evidence" / (pid + ".json")).write_text(json.dumps(ev, indent=1))
+    evdir = VERIF / "evidence"
+    if str(REPO) != "/repo":
+        # a run against a mutated copy must not overwrite the evidence of the real tree
+        evdir = Path(tempfile.gettempdir()) / "verif-evidence-other-tree"
+    evdir.mkdir(exist_ok=True)
+    (evdir / (pid + ".json")).write_text(json.dumps(ev, indent=1))
     print("%s %s: theorems=%d discharged=%d cases=%d violations=%d known=%d wall=%.0fs" % (
         pid, tier, cov["obligations"], cov["discharged"], cov["evaluations"], len(res.violations), len(res.known), ev["wall_s"]))
     return 1 if res.violations else 0
